@@ -158,7 +158,7 @@ def run(tier):
                  'raised': first['raised'], 'res': first['res'], 'xa': first['x_after'], 'ya': first['y_after']}, dict(m, raised=first['exc']))
         else:
             add({'e': 'un', 'g': g, 'lang': t['lang'], 'x': t['x'], 'table': t['unary'], 'tab': [], 'raised': first['raised'],
-                 'res': first['res'], 'xa': first['x_after']}, dict(m, raised=first['exc']))
+                 'res': first['res'], 'xa': first['x_after'], 'tn0': first.get('tn0', 0), 'tn1': first.get('tn1', 0)}, dict(m, raised=first['exc']))
         seen_res = {}
         for s in seeds:
             for rep, o in enumerate(by_seed[s][t['t']]):
@@ -273,7 +273,7 @@ def run(tier):
         o = ob4[t['t']][0]
         g += 1
         add({'e': 'un', 'g': g, 'lang': t['lang'], 'x': t['x'], 'table': t['unary'], 'tab': [], 'raised': o['raised'], 'res': o['res'],
-             'xa': o['x_after']}, {'x': enc.show_cat(t['x']), 'y': '(unary:%s)' % t['unary'], 'raised': o['exc'], 'n_results': len(o['res'])})
+             'xa': o['x_after'], 'tn0': o.get('tn0', 0), 'tn1': o.get('tn1', 0)}, {'x': enc.show_cat(t['x']), 'y': '(unary:%s)' % t['unary'], 'raised': o['exc'], 'n_results': len(o['res'])})
     rejects, stats = validate('traces/RulesTrace.tla', events, 'c14', per_shard=12000, group='g', env={'AUX_FILE': rules.aux_file()})
     from ..trace import binding_demo
 
